@@ -367,6 +367,16 @@ class Inliner:
             for l_ in new_locals:
                 if isinstance(l_.get('ty'), str):
                     l_['ty'] = self.apply_subst(l_['ty'], subst)
+            # ... also inside the closures the helper defines (they inherit its type parameters)
+            for c in desc:
+                nc = self.bodies.get(tag + c['path'][len(callee['path']):])
+                if nc is None:
+                    continue
+                for l_ in nc['locals']:
+                    if isinstance(l_.get('ty'), str):
+                        l_['ty'] = self.apply_subst(l_['ty'], subst)
+                for nb_ in nc['blocks']:
+                    self.instantiate(nb_, subst)
         caller['locals'].extend(new_locals)
         args = force_args if force_args is not None else t['args']
         pre = []
@@ -750,6 +760,14 @@ class Inliner:
                     nm_ = v[1].get('res') or v[1].get('fn')
                     if nm_ in self.bodies and self.unknown(nm_) and not self.bodies[nm_].get('coroutine'):
                         fns.append((a, ('fnitem', nm_, v[1])))
+                    elif nm_ and nm_ not in self.bodies and '::' in nm_:
+                        # a tuple-variant constructor used as a function (`.map(Packet::PublishAck)`)
+                        adt_, var_ = nm_.rsplit('::', 1)
+                        for ad in self.raw.get('adts', []):
+                            if ad['path'] == adt_:
+                                for vi_, vv in enumerate(ad['variants']):
+                                    if vv['name'] == var_ and len(vv['fields']) == 1 and ad.get('kind') == 'Enum':
+                                        fns.append((a, ('ctor', adt_, var_, vi_)))
             if not fns or any(v[0] == 'closure' and closure_fp(self.bodies[v[1]]) in known_fps for a, v in fns):
                 continue
             s_loc = _op_local(args[0])
@@ -771,6 +789,8 @@ class Inliner:
                 """blocks: call X(fop, argops..) -> r ; then_stmts_fn(r) ; goto T. returns entry block index"""
                 r = newlocal('?')
                 after = block(then_stmts_fn(r), {'k': 'goto', 'target': T})
+                if fv[0] == 'ctor':
+                    return block([assign(r, {'k': 'agg', 'agg': 'adt', 'adt': fv[1], 'variant': fv[2], 'vi': fv[3], 'names': ['0'], 'fields': list(argops)})], {'k': 'goto', 'target': after})
                 if fv[0] == 'fnitem':
                     return block([], {'k': 'call', 'func': {'c': copy.deepcopy(fv[2])}, 'args': list(argops), 'dest': {'l': r}, 'target': after})
                 fc = {'ty': 'closure call', 'fn': fv[1], 'local': True, 'args': [], 'res': fv[1], 'res_local': True, 'res_kind': 'closure'}
